@@ -17,7 +17,7 @@ from tally.parsers import parse_generic_csv
 O = Oracle()
 
 FAILING = [
-    'amount > "x"', 'contains(5)', 'description + 1', 'amount.foo == 1', 'next(r for r in description if r == "~")',
+    '(r + 1 for r in description)', '(r for r in amount)', 'amount > "x"', 'contains(5)', 'description + 1', 'amount.foo == 1', 'next(r for r in description if r == "~")',
     'min(c for c in "") > 1', 'regex_replace(description, "(", "") == ""', 'substring("a", "b") == ""', 'split(5, 0) == ""',
     'field.missing == "x"', 'unknown_var', 'description[99] == "a"', 'len(5) > 0', 'sum(description) > 0', '-description == 1',
     'not_a_func(1)', 'startswith(1)', 'fuzzy(1)', 'extract("(") == ""', 'any(5)', 'uppercase() == ""', 'date > 5',
@@ -26,7 +26,10 @@ FAILING = [
     'all(1)', 'next(5)', 'exists(1, 2)', 'field.kind.nope == 1',
 ]
 if O.tier == 'quick':
-    FAILING = FAILING[:26]
+    FAILING = FAILING[:28]
+
+VIEW_FAILING = ['max(sum(by(months))) > 50', 'period(months) > 1', 'sum(by(5)) > 1', 'period(1) > 1', 'sum(by("nope")) > 1', 'avg("x") > 1', 'stddev(1) > 0',
+                'max_val("a", 1) > 0', 'min_val(total, "b") > 0', 'count(5) > 0', 'sum(total) > 0', 'max(by) > 1', 'cv > "a"', 'months + "x" > 1', 'total / "2" > 1']
 
 TXNS = [
     {'description': 'GOOD STORE', 'amount': 10.0, 'date': date(2025, 1, 5), 'field': {'kind': 'Wire'}, 'source': 'S'},
@@ -179,6 +182,9 @@ def main():
                 check_engine(position, fe, order)
         for position in ('match', 'let', 'field', 'tag', 'transform', 'variable'):
             check_normalize_and_csv(position, fe)
+        check_views(fe)
+    # view filters / variables that misuse the aggregate primitives (arguments of the wrong type, unknown periods)
+    for fe in VIEW_FAILING:
         check_views(fe)
     # a transform on a custom field evaluates fine but cannot be stored when the row has no custom fields
     check_normalize_and_csv('transform', 'uppercase(description)')
